@@ -4,7 +4,7 @@
 From Coq Require Import Lia.
 From Coercion.Base Require Import Plan.
 From Coercion.Engine Require Import Shape Event Action ChecksRun Seq Block Final PlanSM Auto Accept AutoLemmas.
-From Coercion.Gen Require Import Gen GenBase GenAct GenImg GenGroup GenHost GenSeq GenBlockEps GenSeqs GenBlockSfx.
+From Coercion.Gen Require Import Gen GenBase GenAct GenImg GenGroup GenHost GenSeq GenBlockEps GenSeqs GenBlockSfx GenWrites.
 
 Lemma enter_block_mkst sh ph t th im cb b late cb' :
   enter_block sh (mkst ph t th im cb b late) cb'
@@ -132,28 +132,61 @@ Section BlockRun.
       cbn [grp_get] in Eg. rewrite Eg. reflexivity.
   Qed.
 
-  (* post group, then deferred + terminal write *)
+  (* a cause that is persisted at once: Failed write, then the deferred group *)
+  Lemma pos_early bt bth qs im :
+    ThrOK bt bth -> tget bt GDeferred = g0 ->
+    K true (img_of (tailE o bi bs []) im) ->
+    Acc sh 1 (S_ BDeferred bt bth true qs im) (tailE o bi bs rest).
+  Proof.
+    intros Ht H0 HK. unfold tailE, Rg, opt_grp_run in *. fold gs in *.
+    eapply Acc_cons; [apply (H_failed sh bi bs); eauto|].
+    set (im1 := iset im (OBlock bi) (cellv Failed 0 false)) in *.
+    destruct (grp_get gs GDeferred) as [rs|] eqn:Eg; cbn [fst snd app] in *.
+    - apply AccR_of_Acc. apply bgrp_Acc; auto. apply AccR_of_Acc.
+      eapply Acc_mono; [|eapply (L_deferred_done _ bth true qs _ (snd (grp_run o sc GDeferred rs)))].
+      + unfold eps_fuel. lia.
+      + apply ThrOK_tset; [discriminate|assumption].
+      + cbn [grp_get] in Eg. rewrite Eg. cbn [closed_as]. apply (tget_tset bt GDeferred).
+      + cbn [orb fin_st]. unfold ist.
+        rewrite (iget_img_of_only (fun x => x <> OBlock bi) _ im1 (OBlock bi)).
+        * unfold im1. now rewrite iget_iset_same.
+        * apply wo_grp_run_gen; discriminate.
+        * intro H. now apply H.
+      + cbn [orb K]. cbn [img_of Wb W] in HK. fold im1 in HK. rewrite app_nil_r in HK. exact HK.
+    - apply AccR_of_Acc. eapply Acc_mono; [|eapply (L_deferred_done bt bth true qs im1 true)]; auto.
+      + unfold eps_fuel. lia.
+      + cbn [grp_get] in Eg. rewrite Eg. reflexivity.
+      + apply ist_iset.
+  Qed.
+
+  (* post group, then deferred + terminal write (a failed post run is persisted before the deferred group) *)
   Lemma pos_post bt bth qs im :
     ThrOK bt bth -> tget bt GPost = g0 -> tget bt GDeferred = g0 ->
     K (failPost o bi bs) (img_of (sfxPost o bi bs []) im) ->
     Acc sh 4 (S_ BPost bt bth false qs im) (sfxPost o bi bs rest).
   Proof.
-    intros Ht H0 H1 HK. unfold sfxPost, failPost, Rg, opt_grp_run in *. fold gs in *.
+    intros Ht H0 H1 HK. unfold sfxPost, failPost in *. rewrite img_of_app in HK.
     assert (Go : forall bt' im' vo, ThrOK bt' bth -> tget bt' GDeferred = g0 ->
               closed_as (g_post gs) (t_post bt') vo ->
-              K (failD o bi bs (negb vo)) (img_of (tailD o bi bs (negb vo) []) im') ->
-              Acc sh 4 (S_ BPost bt' bth false qs im') (tailD o bi bs (negb vo) rest)).
-    { intros bt' im' vo Ht' H1' Hc HK'.
-      eapply Acc_skip'; [apply Blocked_tailD; auto|apply (E_post sh bi bs); eauto|].
-      cbn [orb]. now apply pos_deferred. }
-    destruct (grp_get gs GPost) as [rs|] eqn:Eg; cbn [fst snd app] in *.
-    - apply bgrp_Acc; auto. apply AccR_of_Acc. eapply Acc_mono; [|apply Go].
-      + unfold eps_fuel. lia.
+              K (if vo then failD o bi bs false else true)
+                (img_of (if vo then tailD o bi bs false [] else tailE o bi bs []) im') ->
+              Acc sh 4 (S_ BPost bt' bth false qs im') (if vo then tailD o bi bs false rest else tailE o bi bs rest)).
+    { intros bt' im' vo Ht' H1' Hc HK'. destruct vo.
+      - eapply Acc_skip'; [apply Blocked_tailD; auto|apply (E_post sh bi bs); eauto|].
+        cbn [orb negb]. now apply pos_deferred.
+      - eapply Acc_skip'; [apply Blocked_tailE; auto|apply (E_post sh bi bs); eauto|].
+        cbn [orb negb]. eapply Acc_mono; [|apply pos_early; auto]. lia. }
+    destruct (grp_get gs GPost) as [rs|] eqn:Eg.
+    - assert (ER : Rg o bi bs GPost = grp_run o sc GPost rs) by (unfold Rg, opt_grp_run; now rewrite Eg).
+      rewrite ER in *. apply bgrp_Acc; auto. apply AccR_of_Acc. apply Acc_mono with (f := 4); [unfold eps_fuel; lia|].
+      apply Go.
       + apply ThrOK_tset; [discriminate|assumption].
       + rewrite tget_tset_other by discriminate. assumption.
       + cbn [grp_get] in Eg. rewrite Eg. cbn [closed_as]. apply (tget_tset bt GPost).
-      + rewrite img_of_app in HK. exact HK.
-    - apply Go; auto. cbn [grp_get] in Eg. rewrite Eg. reflexivity.
+      + exact HK.
+    - assert (ER : Rg o bi bs GPost = ([], true)) by (unfold Rg, opt_grp_run; now rewrite Eg).
+      rewrite ER in *. cbn [fst snd app img_of] in *. apply (Go bt im true); auto.
+      cbn [grp_get] in Eg. rewrite Eg. reflexivity.
   Qed.
 
   (* the sequences, then post ... or, tolerance exceeded, deferred ... *)
@@ -218,9 +251,9 @@ Section BlockRun.
   Lemma pre_out bt im vp vc more :
     closed_as (g_pre gs) (t_pre bt) vp -> closed_as (g_cont gs) (t_cont bt) vc ->
     tget bt GPost = g0 -> tget bt GDeferred = g0 ->
-    more = (if vp && vc then sfxSeqs o bi bs rest else tailD o bi bs true rest) ->
+    more = (if vp && vc then sfxSeqs o bi bs rest else tailE o bi bs rest) ->
     K (if vp && vc then failSeqs o bi bs else true)
-      (img_of (if vp && vc then sfxSeqs o bi bs [] else tailD o bi bs true []) im) ->
+      (img_of (if vp && vc then sfxSeqs o bi bs [] else tailE o bi bs []) im) ->
     Acc sh 6 (S_ BPre bt TNone false (b_seqs (b_init bs)) im) more.
   Proof.
     intros Hp Hc H0 H1 -> HK.
@@ -228,7 +261,7 @@ Section BlockRun.
     destruct (vp && vc) eqn:V.
     - eapply Acc_skip'; [apply Blocked_sfxSeqs; auto|exact HE|]. apply pos_seqs; auto.
       apply andb_true_iff in V as [_ ->]. unfold ThrOK. destruct (g_cont gs); cbn [present closed_as] in *; auto.
-    - eapply Acc_skip'; [apply Blocked_tailD; auto|exact HE|]. eapply Acc_mono; [|apply pos_deferred; auto].
+    - eapply Acc_skip'; [apply Blocked_tailE; auto|exact HE|]. eapply Acc_mono; [|apply pos_early; auto].
       + lia.
       + now left.
   Qed.
@@ -240,12 +273,12 @@ Section BlockRun.
     Acc sh 6 (S_ BPre bt TNone false (b_seqs (b_init bs)) im) (sfxPre o bi bs rest).
   Proof.
     intros Hp0 Hc0 H0 H1 HK. unfold sfxPre, failPre in *. rewrite !img_of_app in HK.
-    set (more := if snd (Rg o bi bs GPre) && snd (Rg o bi bs GCont) then sfxSeqs o bi bs rest else tailD o bi bs true rest) in *.
+    set (more := if snd (Rg o bi bs GPre) && snd (Rg o bi bs GCont) then sfxSeqs o bi bs rest else tailE o bi bs rest) in *.
     (* the continuous group, with pre over *)
     assert (StepB : forall bt1 im1, closed_as (g_pre gs) (t_pre bt1) (snd (Rg o bi bs GPre)) ->
               tget bt1 GCont = g0 -> tget bt1 GPost = g0 -> tget bt1 GDeferred = g0 ->
               K (if snd (Rg o bi bs GPre) && snd (Rg o bi bs GCont) then failSeqs o bi bs else true)
-                (img_of (if snd (Rg o bi bs GPre) && snd (Rg o bi bs GCont) then sfxSeqs o bi bs [] else tailD o bi bs true [])
+                (img_of (if snd (Rg o bi bs GPre) && snd (Rg o bi bs GCont) then sfxSeqs o bi bs [] else tailE o bi bs [])
                         (img_of (fst (Rg o bi bs GCont)) im1)) ->
               Acc sh 6 (S_ BPre bt1 TNone false (b_seqs (b_init bs)) im1) (fst (Rg o bi bs GCont) ++ more)).
     { intros bt1 im1 Hp1 Hc1 H01 H11 HK1.
